@@ -76,7 +76,7 @@ static void h_run_one(const struct h_case * c, h_case_fn * fn)
     }
     pid = fork();
     if (pid == 0) {
-        alarm(20);
+        alarm(getenv("H_ALARM") ? (unsigned)atoi(getenv("H_ALARM")) : 8);
         fn(c);
         fflush(stdout);
         _exit(0);
